@@ -178,6 +178,8 @@ def is_agent_array(t, n2):
 def run(rep, repo, tier):
     for k, v in RULES.items():
         rep.rule(k, v)
+    from ..defined import check_defined
+    check_defined(rep, repo, 'C17.R4', [repo.function('create_pref_lists_original', required=False), repo.function('create_linear_distribution', required=False)], 'popularity weights')
     rep.assumptions += ['floating-point rounding of the sum is not decided', 'n >= 1 and s > 0 (C15 bounds)']
     f = repo.function('create_linear_distribution')
     n_t, s_t = S(f.params[0]), S(f.params[1])
